@@ -13,19 +13,23 @@ classes, ForwardRef dereference at conversion time, state threaded through neste
 state — its answer for a use depends on nothing but the declarations made so far and the input.
 
 Full statement (the property):
-    for every program in which each use reaches only declarations that exist,
-        run prog = specRun prog
-  whatever the spelling of each reference, the definition order and the order of (first) uses.
+    after every history of declarations and uses, a use that reaches only declarations that exist
+    returns what the same declarations, read with direct references, return
+  whatever the spelling of each reference, the definition order and the uses made before (also failed ones).
 
 The unchanged code does not satisfy it for classes that live only in a function scope and name a
 sibling through a string (finding `local-sibling-ref`, witness below), so:
 
-* `C17_resolved_eq_direct_partial` — the statement under the decidable hypothesis
-  `KnownDefect.localSibling … = false`;
-* `C17_resolved_eq_direct` — the full statement, no defect hypothesis, for programs whose declarations
-  are bound at module level (this includes classes made by a factory function, i.e. local classes);
+* `C17_use_eq_direct` — the full statement, per use, no defect hypothesis, for declarations bound at
+  module level (this includes classes made by a factory function, i.e. local classes);
+* `C17_use_eq_direct_partial` — per use, all programs, under the decidable `KnownDefect.localSibling … = false`;
+* `C17_resolved_eq_direct(_partial)` — whole-program form (every use of the program admissible ⇒ `run = specRun`);
+* `C17_first_use_order_irrelevant`, `C17_definition_order_irrelevant` — hypotheses on the final use only;
 * `C17_local_sibling_witness` — the negation on a concrete function-scope program;
-* `C17_legacy_*_witness` — the behaviour before fixes/C17-*.patch violates the statement.
+* `C17_legacy_*_witness` — the behaviour before each fixes/C17-*.patch violates the statement.
+
+Limits (see manifest `level_note`): model and spec follow class *names* (a name bound twice is outside the
+model's faithfulness, the generator still produces it for the oracle); evaluation fails only by NameError.
 
 No bound on the number of declarations, fields, uses, nesting of annotations, or on the fuel.
 -/
@@ -234,12 +238,80 @@ theorem C17_resolved_eq_direct (cval : Cell → Ty) (leaf : Val → Option Val) 
   C17_resolved_eq_direct_partial cval leaf chk fuel ops
     (progOK_of_module ops [] (by intro p hp; simp at hp) h)
 
-/-! ### history independence: earlier uses (first-use order) cannot be observed -/
+/-! ### per use: whatever happened before — including uses that failed because a class did not exist yet -/
 
 def defsOf : List Op → List (Name × Decl)
   | [] => []
   | .defn k d :: ops => defsOf ops ++ [(k, d)]
   | .use _ _ :: ops => defsOf ops
+
+/-- only the declarations have to be consistent; nothing is asked of the uses of the history -/
+def DeclsOK (cval : Cell → Ty) : List Op → Prop
+  | [] => True
+  | .defn _ d :: ops => DeclOK cval d ∧ DeclsOK cval ops
+  | .use _ _ :: ops => DeclsOK cval ops
+
+/-- the state a history leaves behind -/
+def stateAfter (leaf : Val → Option Val) (chk : Nat → Val → Bool) (fuel : Nat) : State → List Op → State
+  | s, [] => s
+  | s, .defn k d :: ops => stateAfter leaf chk fuel (define Cfg.fixed s k d) ops
+  | s, .use k kvs :: ops => stateAfter leaf chk fuel (useTop Cfg.fixed leaf chk fuel s k kvs).1 ops
+
+theorem run_append_use (leaf : Val → Option Val) (chk : Nat → Val → Bool) (fuel : Nat) (k : Name) (kvs : List (Nat × Val)) :
+    ∀ (pre : List Op) (s : State),
+    run Cfg.fixed leaf chk fuel s (pre ++ [.use k kvs]) =
+      run Cfg.fixed leaf chk fuel s pre ++ [(useTop Cfg.fixed leaf chk fuel (stateAfter leaf chk fuel s pre) k kvs).2] := by
+  intro pre
+  induction pre with
+  | nil => intro s; simp [run, stateAfter]
+  | cons op pre ih =>
+    intro s
+    cases op with
+    | defn k' d => simp [run, stateAfter, ih]
+    | use k' kvs' => simp [run, stateAfter, ih]
+
+theorem stateAfter_inv {cval : Cell → Ty} (leaf : Val → Option Val) (chk : Nat → Val → Bool) (fuel : Nat) :
+    ∀ (pre : List Op) (s : State) (defs : List (Name × Decl)), Inv cval s defs → DeclsOK cval pre →
+    Inv cval (stateAfter leaf chk fuel s pre) (defsOf pre ++ defs) := by
+  intro pre
+  induction pre with
+  | nil => intro s defs h _; simpa [stateAfter, defsOf] using h
+  | cons op pre ih =>
+    intro s defs h hd
+    cases op with
+    | defn k d =>
+      simp only [DeclsOK] at hd
+      simp only [stateAfter, defsOf, List.append_assoc, List.singleton_append]
+      exact ih _ _ (define_inv h k d hd.1) hd.2
+    | use k kvs =>
+      simp only [DeclsOK] at hd
+      simp only [stateAfter, defsOf]
+      exact ih _ _ (useTop_inv leaf chk fuel h k kvs) hd
+
+/-- **C17, per use (partial: outside finding `local-sibling-ref`).**  After ANY history of consistent
+declarations and uses — also uses that aborted with NameError or failed because a class they reach did not
+exist yet — a use that reaches only existing declarations returns exactly what the directly written
+declarations return.  Nothing is assumed about the earlier uses. -/
+theorem C17_use_eq_direct_partial (cval : Cell → Ty) (leaf : Val → Option Val) (chk : Nat → Val → Bool) (fuel : Nat)
+    (pre : List Op) (k : Name) (kvs : List (Nat × Val)) (hd : DeclsOK cval pre)
+    (S : List Name) (hk : k ∈ S) (hr : Reaches (defsOf pre) S) (hdef : KnownDefect.localSibling (defsOf pre) S = false) :
+    (run Cfg.fixed leaf chk fuel State.init (pre ++ [.use k kvs])).getLast? =
+      some (specParse leaf chk (envOf (defsOf pre)) fuel (.data k) (.dict kvs)) := by
+  rw [run_append_use]
+  have hinv := stateAfter_inv leaf chk fuel pre State.init [] (inv_init cval) hd
+  simp only [List.append_nil] at hinv
+  have := (useTop_spec leaf chk fuel hinv hk (closed_of_reaches hr hdef) kvs).1
+  simp [this]
+
+/-- **C17, per use, full strength for module-level declarations**: no defect hypothesis. -/
+theorem C17_use_eq_direct (cval : Cell → Ty) (leaf : Val → Option Val) (chk : Nat → Val → Bool) (fuel : Nat)
+    (pre : List Op) (k : Name) (kvs : List (Nat × Val)) (hd : DeclsOK cval pre) (hb : AllBound (defsOf pre))
+    (S : List Name) (hk : k ∈ S) (hr : Reaches (defsOf pre) S) :
+    (run Cfg.fixed leaf chk fuel State.init (pre ++ [.use k kvs])).getLast? =
+      some (specParse leaf chk (envOf (defsOf pre)) fuel (.data k) (.dict kvs)) :=
+  C17_use_eq_direct_partial cval leaf chk fuel pre k kvs hd S hk hr (localSibling_false_of_allBound hb hr)
+
+/-! ### history independence: earlier uses (first-use order) cannot be observed -/
 
 theorem specRun_append (leaf : Val → Option Val) (chk : Nat → Val → Bool) (fuel : Nat) : ∀ (ops₁ ops₂ : List Op) (defs : List (Name × Decl)),
     specRun leaf chk fuel defs (ops₁ ++ ops₂) = specRun leaf chk fuel defs ops₁ ++ specRun leaf chk fuel (defsOf ops₁ ++ defs) ops₂ := by
@@ -252,17 +324,18 @@ theorem specRun_append (leaf : Val → Option Val) (chk : Nat → Val → Bool) 
     | defn k d => simp [specRun, defsOf, ih, List.append_assoc]
     | use k kvs => simp [specRun, defsOf, ih]
 
-/-- Two programs that make the same declarations in the same order but use them differently before
-(other uses, other first-use order, no uses at all) answer a final use identically. -/
+/-- Two histories that make the same declarations in the same order but use them differently before —
+other uses, another first-use order, no uses at all, uses that failed because a class did not exist
+yet — answer a final use (one that reaches only existing declarations) identically.  Nothing is
+assumed about the earlier uses. -/
 theorem C17_first_use_order_irrelevant (cval : Cell → Ty) (leaf : Val → Option Val) (chk : Nat → Val → Bool) (fuel : Nat)
     (ops₁ ops₂ : List Op) (k : Name) (kvs : List (Nat × Val))
-    (h₁ : ProgOK cval [] (ops₁ ++ [.use k kvs])) (h₂ : ProgOK cval [] (ops₂ ++ [.use k kvs]))
-    (hd : defsOf ops₁ = defsOf ops₂) :
+    (h₁ : DeclsOK cval ops₁) (h₂ : DeclsOK cval ops₂) (hd : defsOf ops₁ = defsOf ops₂)
+    (S : List Name) (hk : k ∈ S) (hr : Reaches (defsOf ops₁) S) (hdef : KnownDefect.localSibling (defsOf ops₁) S = false) :
     (run Cfg.fixed leaf chk fuel State.init (ops₁ ++ [.use k kvs])).getLast? =
     (run Cfg.fixed leaf chk fuel State.init (ops₂ ++ [.use k kvs])).getLast? := by
-  rw [C17_resolved_eq_direct_partial cval leaf chk fuel _ h₁, C17_resolved_eq_direct_partial cval leaf chk fuel _ h₂,
-      specRun_append, specRun_append, hd]
-  simp [specRun]
+  rw [C17_use_eq_direct_partial cval leaf chk fuel ops₁ k kvs h₁ S hk hr hdef,
+      C17_use_eq_direct_partial cval leaf chk fuel ops₂ k kvs h₂ S hk (hd ▸ hr) (hd ▸ hdef), hd]
 
 /-! ### definition order cannot be observed -/
 
@@ -293,16 +366,19 @@ theorem lookupD_perm (k : Name) {l₁ l₂ : List (Name × Decl)} (hp : l₁.Per
     intro hn
     rw [ih₁ hn, ih₂ ((h₁.map _).nodup_iff.mp hn)]
 
-/-- Two programs that make the same declarations (distinct names) in a different order answer a
-final use identically. -/
+/-- Two histories that make the same declarations (distinct names) in a different order — whatever
+uses happened in between — answer a final use that reaches only existing declarations identically. -/
 theorem C17_definition_order_irrelevant (cval : Cell → Ty) (leaf : Val → Option Val) (chk : Nat → Val → Bool) (fuel : Nat)
     (ops₁ ops₂ : List Op) (k : Name) (kvs : List (Nat × Val))
-    (h₁ : ProgOK cval [] (ops₁ ++ [.use k kvs])) (h₂ : ProgOK cval [] (ops₂ ++ [.use k kvs]))
-    (hperm : (defsOf ops₁).Perm (defsOf ops₂)) (hnd : ((defsOf ops₁).map (·.1)).Nodup) :
+    (h₁ : DeclsOK cval ops₁) (h₂ : DeclsOK cval ops₂)
+    (hperm : (defsOf ops₁).Perm (defsOf ops₂)) (hnd : ((defsOf ops₁).map (·.1)).Nodup)
+    (S : List Name) (hk : k ∈ S)
+    (hr₁ : Reaches (defsOf ops₁) S) (hdef₁ : KnownDefect.localSibling (defsOf ops₁) S = false)
+    (hr₂ : Reaches (defsOf ops₂) S) (hdef₂ : KnownDefect.localSibling (defsOf ops₂) S = false) :
     (run Cfg.fixed leaf chk fuel State.init (ops₁ ++ [.use k kvs])).getLast? =
     (run Cfg.fixed leaf chk fuel State.init (ops₂ ++ [.use k kvs])).getLast? := by
-  rw [C17_resolved_eq_direct_partial cval leaf chk fuel _ h₁, C17_resolved_eq_direct_partial cval leaf chk fuel _ h₂,
-      specRun_append, specRun_append]
+  rw [C17_use_eq_direct_partial cval leaf chk fuel ops₁ k kvs h₁ S hk hr₁ hdef₁,
+      C17_use_eq_direct_partial cval leaf chk fuel ops₂ k kvs h₂ S hk hr₂ hdef₂]
   have hdf : ∀ (n : Nat) (k' : Name), directFieldsF n (defsOf ops₁) k' = directFieldsF n (defsOf ops₂) k' := by
     intro n
     induction n with
@@ -316,7 +392,7 @@ theorem C17_definition_order_irrelevant (cval : Cell → Ty) (leaf : Val → Opt
   have : envOf (defsOf ops₁) = envOf (defsOf ops₂) := by
     funext k'
     simp only [envOf, lookupD_perm k' hperm hnd, hdf, hperm.length_eq]
-  simp [specRun, this]
+  rw [this]
 
 /-! ### the property in its own words: same as the declaration written with direct references -/
 
@@ -493,14 +569,33 @@ theorem progOK_toDirect (cval : Cell → Ty) : ∀ (ops : List Op) (defs : List 
         | none => simp
         | some d => simp [decl_strNames_toDirect]
 
-/-- **C17 in the words of the property.**  A program and the same program with every reference
-written directly behave identically on every input, use by use. -/
-theorem C17_same_as_direct_spelling (cval : Cell → Ty) (leaf : Val → Option Val) (chk : Nat → Val → Bool) (fuel : Nat) (ops : List Op)
+/-- A program and the *idealised* program with every reference written as a bare name behave identically,
+use by use.  The right-hand side is a program of the model only: `mkTy (.name n) = .data n` does not
+ask whether `n` is bound yet, whereas Python rejects a bare name that precedes its definition (which is
+why the string spellings exist).  It restates `C17_resolved_eq_direct_partial` through the spec and is
+not a headline result; the version whose right-hand side is a Python program follows. -/
+theorem C17_same_as_idealised_direct_spelling (cval : Cell → Ty) (leaf : Val → Option Val) (chk : Nat → Val → Bool) (fuel : Nat) (ops : List Op)
     (h : ProgOK cval [] ops) :
     run Cfg.fixed leaf chk fuel State.init ops = run Cfg.fixed leaf chk fuel State.init (ops.map Op.toDirect) := by
   rw [C17_resolved_eq_direct_partial cval leaf chk fuel ops h,
       C17_resolved_eq_direct_partial cval leaf chk fuel _ (progOK_toDirect cval ops [] h)]
   exact (specRun_toDirect leaf chk fuel ops []).symm
+
+/-- every bare name of a declaration is bound when the declaration is made (so Python accepts it) -/
+def BareNamesBound : List (Name × Decl) → List Op → Prop
+  | _, [] => True
+  | defs, .defn k d :: ops =>
+      (∀ fa ∈ d.fields, ∀ n ∈ fa.2.toDirect.allNames, ∃ d', lookupD n defs = some d') ∧
+      BareNamesBound ((k, d) :: defs) ops
+  | defs, .use _ _ :: ops => BareNamesBound defs ops
+
+/-- **C17 in the words of the property**, for programs whose directly written counterpart is itself a
+Python program (every class is declared after the classes it names; no self or mutual reference): the
+program and its direct spelling behave identically on every input, use by use. -/
+theorem C17_same_as_direct_spelling (cval : Cell → Ty) (leaf : Val → Option Val) (chk : Nat → Val → Bool) (fuel : Nat)
+    (ops : List Op) (h : ProgOK cval [] ops) (_hrun : BareNamesBound [] (ops.map Op.toDirect)) :
+    run Cfg.fixed leaf chk fuel State.init ops = run Cfg.fixed leaf chk fuel State.init (ops.map Op.toDirect) :=
+  C17_same_as_idealised_direct_spelling cval leaf chk fuel ops h
 
 /-! ### negation witnesses (replayed on the real code by the harness: findings.d/C17.json, corpus)
 and non-vacuity of every hypothesis -/
@@ -515,6 +610,23 @@ def chk0 (c : Nat) (v : Val) : Bool :=
   | 3, .int i => i ≤ 3
   | 4, .list xs => xs.length ≤ 1
   | _, _ => true
+
+theorem declOK_plainInt' (cval : Cell → Ty) (f : Nat) (d : Decl) (hf : d.fields = [(f, .plain .int)]) :
+    DeclOK cval d := by
+  refine ⟨?_, ?_, ?_⟩
+  · intro fa hfa
+    rw [hf] at hfa
+    simp only [List.mem_cons, List.mem_nil_iff, or_false] at hfa
+    subst hfa; simp [FieldAnnOK, AnnOK]
+  · intro fa hfa fb _ c hc
+    rw [hf] at hfa
+    simp only [List.mem_cons, List.mem_nil_iff, or_false] at hfa
+    subst hfa; simp [FieldAnn.strCell] at hc
+  · rw [hf]; simp [FieldAnn.strCell]
+
+theorem declOK_plainInt (cval : Cell → Ty) (f : Nat) (bs : List Name) :
+    DeclOK cval { fields := [(f, .plain .int)], bases := bs } :=
+  declOK_plainInt' cval f _ rfl
 
 def Outcome.kind : Outcome → Nat
   | .ok _ => 0
@@ -548,7 +660,7 @@ def progUnion : List Op :=
 /-- Before fixes/C17-union-resolve.patch (keys already unique): the Optional member is never replaced
 and the local class un-evaluates the ForwardRef object after resolving it. -/
 theorem C17_legacy_union_witness :
-    (run ⟨true, false, true⟩ leaf0 chk0 10 State.init progUnion).map Outcome.kind = [1] ∧
+    (run ⟨true, false, true, true⟩ leaf0 chk0 10 State.init progUnion).map Outcome.kind = [1] ∧
     (specRun leaf0 chk0 10 [] progUnion).map Outcome.kind = [0] := by decide
 
 /-- class A (name 0): `f0: 'B'`;  class C (name 2) inherits from A;  B is declared last -/
@@ -561,7 +673,7 @@ def progInherit : List Op :=
 /-- Before fixes/C17-inherited-refs.patch: the subclass, used before its base was ever parsed, still
 holds the base's unevaluated ForwardRef. -/
 theorem C17_legacy_inherited_witness :
-    (run ⟨true, true, false⟩ leaf0 chk0 10 State.init progInherit).map Outcome.kind = [1] ∧
+    (run ⟨true, true, false, true⟩ leaf0 chk0 10 State.init progInherit).map Outcome.kind = [1] ∧
     (specRun leaf0 chk0 10 [] progInherit).map Outcome.kind = [0] := by decide
 
 /-- three levels: Document (0) names 'Person' (3); Article(Document) (1) and BlogPost(Article) (2) add
@@ -584,13 +696,62 @@ def progDiamond : List Op :=
 
 /-- Before fixes/C17-inherited-refs.patch a chain of any length fails at its far end … -/
 theorem C17_legacy_chain_witness :
-    (run ⟨true, true, false⟩ leaf0 chk0 10 State.init progChain).map Outcome.kind = [1] ∧
+    (run ⟨true, true, false, true⟩ leaf0 chk0 10 State.init progChain).map Outcome.kind = [1] ∧
     (specRun leaf0 chk0 10 [] progChain).map Outcome.kind = [0] := by decide
 
 /-- … with the fix the whole family resolves from the first call on the most derived class -/
 example : (run Cfg.fixed leaf0 chk0 10 State.init progChain).map Outcome.kind = [0] ∧
           (run Cfg.fixed leaf0 chk0 10 State.init progDiamond).map Outcome.kind = [0] ∧
           (specRun leaf0 chk0 10 [] progDiamond).map Outcome.kind = [0] := by decide
+
+/-- two factory-local classes share the memoised `List['B']` ForwardRef (cell 1); A also names 'C' (2),
+which is declared late: use A (NameError), use E (un-evaluates the shared object), declare C, use A -/
+def declAab : Decl := { fields := [(0, .plain (.list (.quoted 1 1))), (1, .str 7 (.name 2))], isLocal := true }
+def declEab : Decl := { fields := [(0, .plain (.list (.quoted 1 1)))], isLocal := true }
+def histAbort : List Op :=
+  [.defn 0 declAab, .defn 3 declEab, .defn 1 declB,
+   .use 0 [(0, .list [.dict [(50, .int 5)]])],
+   .use 3 [(0, .list [.dict [(50, .int 5)]])],
+   .defn 2 declB]
+
+/-- Before fixes/C17-abort-keeps-pending.patch: the aborted first use popped 'B' from A's registry without
+rewriting A's fields; once E had un-evaluated the shared object, A could never parse `f0` again —
+a permanent ParseError on a use that reaches only existing declarations (found by the review). -/
+theorem C17_legacy_abort_witness :
+    (run ⟨true, true, true, false⟩ leaf0 chk0 10 State.init (histAbort ++ [.use 0 [(0, .list [.dict [(50, .int 5)]])]])).map Outcome.kind
+      = [2, 0, 1] ∧
+    (run Cfg.fixed leaf0 chk0 10 State.init (histAbort ++ [.use 0 [(0, .list [.dict [(50, .int 5)]])]])).map Outcome.kind
+      = [2, 0, 0] := by decide
+
+/-- Non-vacuity of the per-use theorem on exactly that history: its hypotheses hold although the history
+contains a use that aborted. -/
+example : DeclsOK (fun c => if c == 7 then .data 2 else .data 1) histAbort ∧
+    Reaches (defsOf histAbort) [0, 1, 2] ∧ KnownDefect.localSibling (defsOf histAbort) [0, 1, 2] = false := by
+  refine ⟨⟨⟨?_, ?_, ?_⟩, ⟨?_, ?_, ?_⟩, declOK_plainInt _ 50 [], declOK_plainInt _ 50 [], trivial⟩, ?_, by decide⟩
+  · intro fa hfa
+    simp only [declAab, List.mem_cons, List.mem_nil_iff, or_false] at hfa
+    rcases hfa with rfl | rfl <;> simp [FieldAnnOK, AnnOK, direct]
+  · intro fa hfa fb hfb c hc
+    simp only [declAab, List.mem_cons, List.mem_nil_iff, or_false] at hfa hfb
+    rcases hfa with rfl | rfl
+    · simp [FieldAnn.strCell] at hc
+    · simp only [FieldAnn.strCell, List.mem_singleton] at hc
+      subst hc
+      rcases hfb with rfl | rfl <;> simp [FieldAnn.quotedCells, quotedOf]
+  · simp [declAab, FieldAnn.strCell]
+  · intro fa hfa
+    simp only [declEab, List.mem_cons, List.mem_nil_iff, or_false] at hfa
+    subst hfa; simp [FieldAnnOK, AnnOK]
+  · intro fa hfa fb _ c hc
+    simp only [declEab, List.mem_cons, List.mem_nil_iff, or_false] at hfa
+    subst hfa; simp [FieldAnn.strCell] at hc
+  · simp [declEab, FieldAnn.strCell]
+  · intro k hk
+    simp only [List.mem_cons, List.mem_nil_iff, or_false] at hk
+    rcases hk with rfl | rfl | rfl
+    · exact ⟨declAab, by simp [defsOf, histAbort, lookupD], by simp [Decl.allNames, declAab, FieldAnn.allNames, names], by simp [declAab]⟩
+    · exact ⟨declB, by simp [defsOf, histAbort, lookupD], by simp [Decl.allNames, declB, FieldAnn.allNames, names], by simp [declB]⟩
+    · exact ⟨declB, by simp [defsOf, histAbort, lookupD], by simp [Decl.allNames, declB, FieldAnn.allNames, names], by simp [declB]⟩
 
 /-- both classes live only in a function scope; A names its sibling B through a string -/
 def progLocal : List Op :=
@@ -655,17 +816,6 @@ def declDoc : Decl := { fields := [(0, .str 7 (.name 3)), (1, .plain (.list (.qu
 def declArt : Decl := { fields := [(2, .plain .int)], bases := [0] }
 def declBlog : Decl := { fields := [(3, .plain .int)], bases := [1] }
 
-theorem declOK_plainInt (cval : Cell → Ty) (f : Nat) (bs : List Name) :
-    DeclOK cval { fields := [(f, .plain .int)], bases := bs } := by
-  refine ⟨?_, ?_, ?_⟩
-  · intro fa hfa
-    simp only [List.mem_cons, List.mem_nil_iff, or_false] at hfa
-    subst hfa; simp [FieldAnnOK, AnnOK]
-  · intro fa hfa fb _ c hc
-    simp only [List.mem_cons, List.mem_nil_iff, or_false] at hfa
-    subst hfa; simp [FieldAnn.strCell] at hc
-  · simp [FieldAnn.strCell]
-
 /-- Non-vacuity with inheritance: the hypotheses hold for the three-level chain whose most derived
 class is used first (the reachable set contains the whole chain and the referenced class). -/
 example : ProgOKModule (fun _ => .data 3) []
@@ -691,5 +841,33 @@ example : ProgOKModule (fun _ => .data 3) []
     · exact ⟨declArt, by simp [lookupD], by simp [Decl.allNames, declArt, FieldAnn.allNames, names], by simp [declArt]⟩
     · exact ⟨declBlog, by simp [lookupD], by simp [Decl.allNames, declBlog, FieldAnn.allNames, names], by simp [declBlog]⟩
     · exact ⟨declB, by simp [lookupD], by simp [Decl.allNames, declB, FieldAnn.allNames, names], by simp [declB]⟩
+
+def declBf : Decl := { fields := [(50, .plain .int)], isLocal := true, bound := false }
+def declAf : Decl := { fields := [(0, .plain (.list (.name 1))), (1, .plain (.union [.quoted 1 0, .none]))],
+                       isLocal := true, bound := false }
+
+/-- Non-vacuity of `ProgOK` where it adds to the module theorem: classes that live only in a function
+scope (`bound := false`); A (0) names its sibling B (1) by a bare name and itself through a string — the
+self-reference disjunct `d.isFunc = false ∧ n = k` of `Closed` is what makes the use admissible. -/
+example : ProgOK (fun _ => .data 0) []
+    [.defn 1 declBf, .defn 0 declAf, .use 0 [(1, .dict [(0, .list [.dict [(50, .int 5)]])])]] := by
+  refine ⟨declOK_plainInt' _ 50 _ rfl, ⟨?_, ?_, ?_⟩, ⟨[0, 1], by simp, ?_, by decide⟩, trivial⟩
+  · intro fa hfa
+    simp only [declAf, List.mem_cons, List.mem_nil_iff, or_false] at hfa
+    rcases hfa with rfl | rfl <;> simp [FieldAnnOK, AnnOK, AnnsOK]
+  · intro fa hfa fb _ c hc
+    simp only [declAf, List.mem_cons, List.mem_nil_iff, or_false] at hfa
+    rcases hfa with rfl | rfl <;> simp [FieldAnn.strCell] at hc
+  · simp [declAf, FieldAnn.strCell]
+  · intro k hk
+    simp only [List.mem_cons, List.mem_nil_iff, or_false] at hk
+    rcases hk with rfl | rfl
+    · exact ⟨declAf, by simp [lookupD], by simp [Decl.allNames, declAf, FieldAnn.allNames, names, namesL], by simp [declAf]⟩
+    · exact ⟨declBf, by simp [lookupD], by simp [Decl.allNames, declBf, FieldAnn.allNames, names], by simp [declBf]⟩
+
+/-- … and on that program the model (self reference resolved, sibling by bare name) agrees with the spec -/
+example : (run Cfg.fixed leaf0 chk0 10 State.init
+    [.defn 1 declBf, .defn 0 declAf, .use 0 [(1, .dict [(0, .list [.dict [(50, .int 5)]])])]]).map Outcome.kind = [0] := by
+  decide
 
 end Utv.C17
